@@ -112,6 +112,24 @@ fn script(n: usize) -> (bool, Vec<Step>, &'static str) {
             ],
             "flush",
         ),
+        10 => (
+            false,
+            vec![
+                // a placeholder header, the body, then back to fill in the header (the seek makes the
+                // container write out its buffer: a fault there must not be swallowed)
+                ("write_stream_header_last", Box::new(|p: &mut Pkg| {
+                    use std::io::{Seek, SeekFrom};
+                    let mut w = p.write_stream("with header")?;
+                    w.write_all(&[0u8; 16])?;
+                    let body: Vec<u8> = (0..12000).map(|i| (i % 253) as u8).collect();
+                    w.write_all(&body)?;
+                    w.seek(SeekFrom::Start(0))?;
+                    w.write_all(b"HEADER-0123456789"[..16].as_ref())?;
+                    w.flush()
+                })),
+            ],
+            "flush",
+        ),
         // tables whose serialised size lands on and around buffer sizes (4400 = just past 4 KiB
         // at the last column, 8192 = exactly the container's stream buffer, 512 = one sector)
         _ => (
@@ -136,7 +154,7 @@ fn script(n: usize) -> (bool, Vec<Step>, &'static str) {
     }
 }
 
-pub const NUM_SCRIPTS: usize = 10;
+pub const NUM_SCRIPTS: usize = 11;
 
 struct Outcome {
     calls: usize,
